@@ -227,6 +227,17 @@ theorem glitch_run_gen (cfg : Cfg) (st : Carrier → Nat) (ok : Carrier → Bool
         refine ⟨Qapp _ _ (Qfree _ k.2.2.2.2.2) r.1, ?_, r.2.2⟩
         have hc : (rxLine cfg t s (.wss b0 b1)).1.cached = s.cached := k.2.1
         rw [← hc]; exact r.2.1
+      | cpr c0 =>
+        have k := rxCpr_keeps s c0
+        have hg2 := hg.2
+        simp only [lineCni] at hg2
+        have inv' : I lg (rxLine cfg t s (.cpr c0)).1 :=
+          Itrans lg s _ inv k.1 k.2.2.1 k.2.2.2.1 (rxCpr_rest s c0).1
+        have ht : (rxLine cfg t s (.cpr c0)).1.time = s.time := k.2.2.2.2.1
+        have r := ih _ lg inv' (by rw [ht]; exact hreg) hg2
+        refine ⟨Qapp _ _ (Qfree _ k.2.2.2.2.2) r.1, ?_, r.2.2⟩
+        have hc : (rxLine cfg t s (.cpr c0)).1.cached = s.cached := k.2.1
+        rw [← hc]; exact r.2.1
       | page pgno =>
         have hg2 := hg.2
         simp only [lineCni] at hg2
